@@ -11,5 +11,6 @@ CONF = {
     "C10": dict(pkg="props/c10", crash_is_violation=True, quick=dict(checks=2500, shards=8, timeout=900), thorough=dict(checks=60000, shards=16, timeout=3600),
                 fuzz=[dict(name="FuzzCompile", seconds=180), dict(name="FuzzMatchAPIs", seconds=240), dict(name="FuzzReplaceSplit", seconds=180),
                       dict(name="FuzzCompat", seconds=180), dict(name="FuzzEscape", seconds=60)]),
-    "C16": dict(pkg="props/c16", quick=dict(checks=500, shards=8, timeout=600), thorough=dict(checks=1500, shards=16, timeout=3600)),
+    "C16": dict(pkg="props/c16", quick=dict(checks=2000, shards=8, timeout=600), thorough=dict(checks=1500, shards=16, timeout=3600)),
+    "C18": dict(pkg="props/c18", quick=dict(checks=2000, shards=8, timeout=600), thorough=dict(checks=50000, shards=16, timeout=3600)),
 }
